@@ -12,7 +12,7 @@ length, including CR LF, `END\r\n`, NUL — and every non-negative `flags`.
 
 Not covered: user-supplied serializers/deserializers (the `serde` hook is outside the model: `get`
 returns the raw bytes); a real memcached's item-size limit; expiry other than "never" between the store
-and the fetch (C05 covers the general history).
+and the fetch (C05 covers the general history).  Time itself may pass (`…_over_time`).
 -/
 namespace Client
 open Bytes Wire Exchange Readers AbsMap ApiSpec
@@ -41,6 +41,36 @@ theorem C04_store_fetch_roundtrip (cfg : Cfg) (s s' : St) (verb : SVerb) (k : Ke
     onServer cfg s' (.get k) = (s', .ok (.bytes v), true) ∧
     onServer cfg s' (.gets k) = (s', .ok (.pair v (natDec ((settle s).casCtr + 1))), true) :=
   store_then_fetch cfg s s' verb k (.bytes v) v flags cas b hverb hk hf rfl hset
+
+/-- **… and it stays there while time passes.**  The same round trip when the clock advances by any `dt`
+seconds between the store and the fetch: an item stored with expiry 0 never expires.  The only thing that
+can remove it without a further request is a *delayed* `flush_all` issued earlier whose deadline falls
+into the interval; `hfl` says that no such deadline is reached (in particular it holds when no delayed
+flush is pending, `s'.flushAt = none`). -/
+theorem C04_store_fetch_roundtrip_over_time (cfg : Cfg) (s s' : St) (verb : SVerb) (k : Key.K) (v : Bytes)
+    (flags : Option Int) (cas : Option CasArg) (b : Bool) (dt : Nat)
+    (hverb : verb ≠ .append ∧ verb ≠ .prepend) (hk : KeyOK cfg k) (hf : FlagsOK flags)
+    (hset : onServer cfg s (.store verb k (.bytes v) (.int 0) (some false) flags cas) =
+      (s', .ok (.bool true), b))
+    (hfl : ∀ t, s'.flushAt = some t → s'.now + dt < t) :
+    onServer cfg (advance s' dt) (.get k) = (advance s' dt, .ok (.bytes v), true) ∧
+    onServer cfg (advance s' dt) (.gets k) =
+      (advance s' dt, .ok (.pair v (natDec ((settle s).casCtr + 1))), true) :=
+  store_then_fetch_over_time cfg s s' verb k (.bytes v) v flags cas b dt hverb hk hf rfl hset hfl
+
+/-- With no delayed flush pending on the server (`s.flushAt = none`), `set` then `get` after ANY time
+returns the value: no hypothesis about outcomes or deadlines is left. -/
+theorem C04_set_get_roundtrip_over_time (cfg : Cfg) (s : St) (k : Key.K) (w : Bytes) (v : Bytes)
+    (flags : Option Int) (dt : Nat)
+    (hk : KeyOK cfg k) (hf : FlagsOK flags) (hck : checkKey cfg k = .ok w) (hs : s.flushAt = Option.none) :
+    (onServer cfg
+      (advance (onServer cfg s (.store .set k (.bytes v) (.int 0) (some false) flags Option.none)).1 dt)
+      (.get k)).2 = (.ok (.bytes v), true) := by
+  have hset := set_returns_true cfg s k w (.bytes v) v 0 flags Option.none hk hf hck rfl
+  have hst : settle s = s := settle_of_settled (by intro t ht; rw [hs] at ht; cases ht)
+  have := (store_then_fetch_over_time cfg s _ .set k (.bytes v) v flags Option.none true dt (by simp) hk hf
+    rfl hset (by intro t ht; rw [hst] at ht; simp [AbsMap.store, hs] at ht)).1
+  rw [hset, this]
 
 /-- The same without a hypothesis about the outcome, for `set`: `get` after `set` returns the value. -/
 theorem C04_set_get_roundtrip (cfg : Cfg) (s : St) (k : Key.K) (w : Bytes) (v : Bytes) (flags : Option Int)
